@@ -29,6 +29,8 @@ struct Inner {
     grants: HashSet<u32>,
     finished: HashSet<u32>,
     stream_actor: HashMap<String, u32>,
+    prefix_actor: Vec<(String, u32)>,
+    sk_actor: HashMap<String, u32>,
     snap: Option<Snap>,
     fail: Option<(String, u64, Option<String>)>,
     fail_hits: u64,
@@ -36,6 +38,7 @@ struct Inner {
     // overtake mode: delay an append at log.pre until a later seq of the same stream is flushed
     overtake: Option<(HashSet<String>, Duration)>,
     flushed_max: HashMap<String, u64>,
+    delaying: HashSet<String>,
     overtaken: u64,
 }
 
@@ -72,11 +75,19 @@ impl rip_kernel::verif::Sink for Hub {
             let mut g = self.inner.lock().unwrap();
             let a = if actor != 0 {
                 actor
+            } else if let Some((_, pa)) = g.prefix_actor.iter().find(|(p, _)| name.starts_with(p.as_str())) {
+                *pa
             } else {
                 fields
                     .get("stream")
                     .and_then(|s| s.as_str())
                     .and_then(|s| g.stream_actor.get(s).copied())
+                    .or_else(|| {
+                        fields
+                            .get("sk")
+                            .and_then(|s| s.as_str())
+                            .and_then(|s| g.sk_actor.get(s).copied())
+                    })
                     .unwrap_or(0)
             };
             if g.record {
@@ -126,14 +137,16 @@ impl rip_kernel::verif::Sink for Hub {
                     self.cv.notify_all();
                 }
             }
-            if name == "log.pre" {
+            if name == "log.pre" || name == "emit.numbered" {
                 if let Some((kinds, wait)) = g.overtake.clone() {
                     let sk = fields.get("sk").and_then(|s| s.as_str()).unwrap_or("");
                     if kinds.contains(sk) {
                         let st = fields.get("stream").and_then(|s| s.as_str()).unwrap_or("").to_string();
                         let q = fields.get("seq").and_then(|s| s.as_u64()).unwrap_or(0);
                         let deadline = Instant::now() + wait;
-                        loop {
+                        // one delayed frame per stream at a time: the others must be free to overtake it
+                        let first = g.delaying.insert(st.clone());
+                        while first {
                             if g.flushed_max.get(&st).map(|m| *m > q).unwrap_or(false) {
                                 g.overtaken += 1;
                                 break;
@@ -144,6 +157,9 @@ impl rip_kernel::verif::Sink for Hub {
                             }
                             let (ng, _) = self.cv.wait_timeout(g, deadline - now).unwrap();
                             g = ng;
+                        }
+                        if first {
+                            g.delaying.remove(&st);
                         }
                     }
                 }
@@ -219,6 +235,16 @@ impl Hub {
             .unwrap()
             .stream_actor
             .insert(stream.to_string(), actor);
+    }
+    pub fn map_sk(&self, sk: &str, actor: u32) {
+        self.inner.lock().unwrap().sk_actor.insert(sk.to_string(), actor);
+    }
+    pub fn map_prefix(&self, prefix: &str, actor: u32) {
+        self.inner
+            .lock()
+            .unwrap()
+            .prefix_actor
+            .push((prefix.to_string(), actor));
     }
     pub fn arm_fail(&self, point: &str, nth: u64, kind: Option<String>) {
         let mut g = self.inner.lock().unwrap();
